@@ -141,6 +141,14 @@ def precise_end_rules(ctx: Ctx, rid: str):
                 continue
             node = g.node_of(st)
             own = node is not None and ffacts.holds(node, lambda t, p: p and _is_own_test(t, tvar)) is not None
+            if own:
+                # ... whatever the task did before this slot: the lookup is not conditional on the call's parameters
+                cparams = sorted(a for a in {x.lstrip("~") for x in fd.ctl_atoms(node)} if a.startswith("param:") and a not in ("param:self", "param:cls"))
+                if cparams:
+                    ctx.ob(rid, f"{prec.qual}: record read {norm(st)[:50]} is unconditional", (prec, st), False,
+                           f"the task's own ledger record is consulted only under a condition on {cparams}: in the other case the task is "
+                           "assumed to have booked the whole slot, so the release hands back seconds another task holds",
+                           key=key_of(rid, prec, st, "own-record unconditional"))
             ctx.ob(rid, f"{prec.qual}: record read {norm(st)[:60]}", (prec, st), own,
                    "the seconds of a ledger record are read only for this task's own entry" if own else
                    "seconds recorded for OTHER tasks in the slot flow into this task's dates: entries of tasks that booked the "
@@ -148,6 +156,44 @@ def precise_end_rules(ctx: Ctx, rid: str):
                    key=key_of(rid, prec, st, "own-record"))
     if not nloops:
         raise AnchorMissing("_calculatePreciseEndTimeAndRelease: no loop over the per-task slot records")
+    # the seconds used in the final slot never exceed the seconds booked there: every use of `seconds_into_slot` in the
+    # date and in the release is reached only through the clamp min(seconds_into_slot, booked_seconds)
+    var = "seconds_into_slot"
+    defs = [n_ for n_ in g.nodes if n_.kind == "stmt" and isinstance(n_.ast, ast.Assign) and norm(n_.ast.targets[0]) == var]
+    clamps = [n_ for n_ in defs if isinstance(n_.ast.value, ast.Call) and norm(n_.ast.value.func) == "min"
+              and any("booked" in norm(a_) for a_ in n_.ast.value.args) and any(norm(a_) == var for a_ in n_.ast.value.args)]
+    uses = [n_ for n_ in g.nodes if n_.ast is not None and n_ not in defs and any(
+        isinstance(x, ast.Name) and x.id == var and isinstance(x.ctx, ast.Load)
+        for x in ast.walk(n_.ast.test if isinstance(n_.ast, (ast.If, ast.While)) else n_.ast)
+        if not isinstance(n_.ast, (ast.For, ast.With, ast.Try, ast.FunctionDef)))]
+    if not defs or not uses:
+        raise AnchorMissing("_calculatePreciseEndTimeAndRelease: seconds_into_slot definitions / uses not found")
+    ok = bool(clamps) and all(g.all_paths_pass(d_, u_, lambda n_: n_ in clamps) for d_ in defs if d_ not in clamps for u_ in uses)
+    ctx.ob(rid, f"{prec.qual}: seconds used in the final slot are clamped to the seconds booked ({len(uses)} uses)", prec, ok,
+           "every use is reached through min(seconds_into_slot, booked_seconds)" if ok else
+           "the seconds the task needs in its final slot are used unclamped: when the credited effort and the precise end use "
+           "different rates (team with different efficiencies) the end lies beyond the last booked slot",
+           key=key_of(rid, prec, None, "clamp to booked"))
+
+
+def release_rules(ctx: Ctx, rid: str):
+    """The unused part of the final slot is handed back in both scheduling directions (C03 R03.9, C01 R01.7)."""
+    from .common import heap_writes
+    prec = ctx.repo.func("TaskScenario._calculatePreciseEndTimeAndRelease")
+    fd = ctx.dep.of(prec)
+    n = 0
+    for field in ("slotSecondsUsed", "slotTaskUsage"):
+        for atoms, node, tgt in heap_writes(ctx, prec, field):
+            n += 1
+            c = {x.lstrip("~") for x in fd.ctl_atoms(node)}
+            bad = "param:forward" in c
+            ctx.ob(rid, f"{prec.qual}: release write {norm(tgt)[:50]} in both directions", (prec, node.ast), not bad,
+                   "the trim of the final-slot booking does not depend on the scheduling direction" if not bad else
+                   "the final-slot booking is trimmed only in one scheduling direction: a backward-scheduled task keeps the whole slot, "
+                   "so the time booked for it exceeds its effort",
+                   key=key_of(rid, prec, None, f"release {field} direction"))
+    if n < 2:
+        raise AnchorMissing(f"_calculatePreciseEndTimeAndRelease: {n} release writes found")
 
 
 
@@ -311,7 +357,7 @@ def run(ctx: Ctx):
     from .c01 import offset_reservation_rule
     offset_reservation_rule(ctx, "R06.6")
     ctx.floor("R06.6", 1)
-    ctx.floor("R06.1", 5)
+    ctx.floor("R06.1", 6)
     ctx.floor("R06.2", 3)
     ctx.floor("R06.3", 6)
     ctx.floor("R06.4", 2)
